@@ -3,7 +3,7 @@ import fwd, grad, comp, total, rnd
 
 REGISTRY = {
     'C01': {'gen': grad.gen_C01, 'cmd_timeout_ms': 8000},
-    'C02': {'gen': grad.gen_C02},
+    'C02': {'gen': grad.gen_C02, 'once': grad.exhaustive_backward},
     'C03': {'gen': fwd.gen_C03},
     'C04': {'gen': fwd.gen_C04},
     'C05': {'gen': fwd.gen_C05},
